@@ -2,8 +2,10 @@ package main
 
 import (
 	"fmt"
+
 	"math/big"
 	"strings"
+	"verifharness/explore"
 
 	spg "go.1password.io/spg"
 
@@ -48,6 +50,13 @@ func c04Case(c *Ctx) {
 		return
 	}
 	w, lim := wlTreeCaseFor(c.Tier, c.Seed, c.Case)
+	c04Tree(c, w, lim, "", c.Case < len(wlTreePanel))
+}
+
+// c04Tree explores one wordlist recipe completely and compares the observed joint distribution with the
+// documented product law. prefix is put in front of the violation classes (C01 reuses this monitor for
+// its generator-level clause).
+func c04Tree(c *Ctx, w WLCase, lim explore.Limits, prefix string, sample bool) {
 	if w.SepTrials > 0 {
 		defer knobs(w.SepTrials, 1)()
 		c.Count("trees_with_failing_separator", 1)
@@ -85,12 +94,12 @@ func c04Case(c *Ctx) {
 	}
 	for key, m := range res.Mass {
 		if !strings.HasPrefix(key, "PW:") {
-			c.Violate("generation-failed", fmt.Sprintf("recipe %s: outcome %s with probability %s", w.String(), key, ratString(m)), det)
+			c.Violate(prefix+"generation-failed", fmt.Sprintf("recipe %s: outcome %s with probability %s", w.String(), key, ratString(m)), det)
 			return
 		}
 		want := ref[key]
 		if want == nil {
-			c.Violate("impossible-output", fmt.Sprintf("recipe %s returned %s (probability >= %s), which the recipe cannot produce", w.String(), key, ratString(m)), det)
+			c.Violate(prefix+"impossible-output", fmt.Sprintf("recipe %s returned %s (probability >= %s), which the recipe cannot produce", w.String(), key, ratString(m)), det)
 			return
 		}
 		hi := new(big.Rat).Add(m, res.Unresolved)
@@ -100,19 +109,19 @@ func c04Case(c *Ctx) {
 			case w.Scheme == "one" || w.Scheme == "random":
 				class += ":" + w.Scheme
 			}
-			c.Violate(class, fmt.Sprintf("recipe %s: P(%s) = %s (+ unresolved %s) but the product of uniform, independent choices gives %s", w.String(), key, ratString(m), ratString(res.Unresolved), ratString(want)), det)
+			c.Violate(prefix+class, fmt.Sprintf("recipe %s: P(%s) = %s (+ unresolved %s) but the product of uniform, independent choices gives %s", w.String(), key, ratString(m), ratString(res.Unresolved), ratString(want)), det)
 			return
 		}
 	}
 	if res.Complete {
 		for key, want := range ref {
 			if res.Mass[key] == nil {
-				c.Violate("output-unreachable", fmt.Sprintf("recipe %s never returns %s, which should have probability %s", w.String(), key, ratString(want)), det)
+				c.Violate(prefix+"output-unreachable", fmt.Sprintf("recipe %s never returns %s, which should have probability %s", w.String(), key, ratString(want)), det)
 				return
 			}
 		}
 	}
-	if c.Case < len(wlTreePanel) {
+	if sample {
 		var any *big.Rat
 		for _, m := range res.Mass {
 			any = m
